@@ -61,7 +61,10 @@ Truncated(v) ==
       ELSE v
 
 PreExpected(t) ==
-    LET v1 == IF t.k = "kw" /\ O.keyword_case # "unset" THEN MapCase(O.keyword_case, t.val) ELSE t.val
+    LET v1 == IF t.k = "kw" /\ O.keyword_case # "unset"
+                THEN (IF t.cont /\ O.keyword_case = "capitalize" THEN MapCase("lower", t.val)     \* 'Order by': one token for str.capitalize
+                      ELSE MapCase(O.keyword_case, t.val))
+                ELSE t.val
         v2 == IF t.k = "name" /\ O.identifier_case # "unset" /\ (t.val = <<>> \/ t.val[1] # 34)
                 THEN MapCase(O.identifier_case, v1) ELSE v1
         v3 == IF t.k = "str" /\ O.truncate_strings # "unset" THEN Truncated(v2) ELSE v2
@@ -125,7 +128,7 @@ Step == /\ verdict = "ok" /\ Check68 /\ si <= Len(T.stmts)
         /\ UNCHANGED tid
 
 \* ---- final: observable clauses on input / output ---------------------------
-OutSig == SelectSeq(T.outtoks, LAMBDA t : ~t.ws /\ t.val # <<>>)
+OutSig == T.outsig      \* significant tokens of the re-lexed output, multi-word keywords word by word
 Expected == LET pre == [i \in 1..Len(T.insig) |-> [T.insig[i] EXCEPT !.val = PreExpected(T.insig[i])]]
             IN IF IsTrue("strip_comments") THEN DropComments(pre) ELSE pre
 PlainOutput == O.output_format \in {"unset", "sql"}
